@@ -460,7 +460,7 @@ fn initial_array(ctx: &mut Ctx, m: usize) -> Vec<usize> {
 
 pub fn generate(ctx: &mut Ctx) {
     // 1. exhaustive sub-space: every vector over 0..=alpha up to length maxlen, every k in 1..=kmax
-    let (alpha, maxlen, kmax) = if ctx.quick() { (3i64, 4usize, 4usize) } else { (4, 6, 4) };
+    let (alpha, maxlen, kmax) = if ctx.quick() { (3i64, 5usize, 4usize) } else { (4, 6, 4) };
     for len in 0..=maxlen {
         let mut v = vec![0i64; len];
         let p = vec![FILL; len];
@@ -497,7 +497,7 @@ pub fn generate(ctx: &mut Ctx) {
 
     // 2. random vectors in nine shapes
     let nmax = if ctx.quick() { 16 } else { 24 };
-    for _ in 0..ctx.budget(3000, 100000) {
+    for _ in 0..ctx.budget(12000, 150000) {
         // mostly 4..=nmax weights, tiny vectors (0..=3) in one case out of seven
         let n = if ctx.rng.chance(1, 7) { ctx.rng.usize(4) } else { 4 + ctx.rng.usize(nmax - 3) };
         let shape = ctx.rng.usize(SHAPES.len());
@@ -538,6 +538,24 @@ pub fn generate(ctx: &mut Ctx) {
                     None => {}
                 }
             }
+        }
+    }
+
+    // 2b. k-way KarmarkarKarp on shapes where equal sums are rare (wide, huge, distinct values,
+    //     powers of two; at least as many weights as parts), so that a large share of the k-way
+    //     cases is compared on exact ids
+    for _ in 0..ctx.budget(4000, 50000) {
+        let kspan = if ctx.rng.chance(1, 5) { 8 } else { 3 };
+        let k = 3 + ctx.rng.usize(kspan);
+        let n = k + ctx.rng.usize(nmax);
+        let shape = *ctx.rng.pick(&[1usize, 3, 3, 7, 8]);
+        ctx.count(&format!("kway_stream_shape_{}", SHAPES[shape]));
+        let ws = weights(ctx, shape, n);
+        let p = initial_array(ctx, n);
+        match emit_kk(ctx, k, &ws, &p) {
+            Some(true) => ctx.count("kway_stream_exact_ids"),
+            Some(false) => ctx.count("kway_stream_sorted_loads"),
+            None => {}
         }
     }
 
